@@ -1311,6 +1311,74 @@ def directed_defender(drv, rng, defender_tables, on_fail, stats, n):
             sess.close()
 
 
+def probe_all_attackers_goal(on_fail, stats):
+    """The task-configuration comments document `known_blocks: {<host>: 'all_attackers'}` for the Defender goal (the shipped
+    netsecenv_conf.yaml uses it).  One defender with that goal blocks an address on that very host: the action must be
+    answered (C01), the episode-end rule must be evaluated (C04), the documented key must be honoured (C19).
+    The modelled configuration domain has no wildcards inside goals, so this is a probe of the real code alone."""
+    cfg = default_config(env={"required_players": 2})
+    cfg["coordinator"]["agents"]["Defender"]["goal"]["known_blocks"] = {"192.168.1.2": "all_attackers"}
+    cfg["coordinator"]["agents"]["Defender"]["start_position"]["controlled_hosts"] = ["192.168.1.2"]
+    sim = Sim(cfg)
+    try:
+        if sim.startup_error is not None or sim.server_cb is None:
+            on_fail({"C19"}, "finding:all_attackers-goal:startup", f"a configuration using the documented 'all_attackers' goal keyword is not accepted: {sim.startup_error!r}", {"kind": "config", "config": cfg})
+            return
+        sim.connect(0)
+        sim.send(0, J(ActionType.JoinGame, agent_info=AgentInfo("a", "Attacker")))
+        sim.connect(1)
+        sim.send(1, J(ActionType.JoinGame, agent_info=AgentInfo("d", "Defender")))
+        sim.outputs()
+        sim.send(1, J(ActionType.BlockIP, source_host=IP("192.168.1.2"), target_host=IP("192.168.1.2"), blocked_host=IP("192.168.2.2")))
+        outs = [(c, k) for c, k, p in sim.outputs()]
+        died = [repr(u.get("exception"))[:160] for u in sim.loop.unhandled]
+        stats["probe_all_attackers"] = stats.get("probe_all_attackers", 0) + 1
+        # the defender's goal is not met by this block, an attacker still plays: the action is an ordinary step and must be answered at once
+        if (1, "reply") not in outs or died:
+            on_fail({"C01", "C04", "C19"}, "finding:all_attackers-goal:BlockIP-unanswered",
+                    f"Defender goal known_blocks {{192.168.1.2: 'all_attackers'}} (documented keyword): the defender's BlockIP on 192.168.1.2 is "
+                    f"{'not answered' if (1, 'reply') not in outs else 'answered'}; exception escaping the handler: {died}",
+                    {"kind": "config-session", "config": cfg, "script": ["Attacker joins", "Defender joins", "Defender: BlockIP(192.168.1.2, 192.168.1.2, 192.168.2.2)"]})
+    finally:
+        sim.close()
+
+
+def probe_unencodable_name(on_fail, stats):
+    """save_trajectories on; an agent joins under a name that is valid JSON but cannot be written as UTF-8 (lone surrogate),
+    plays a step and asks for a reset: RESET_DONE must come (C07) and the episode must be in a trajectory file (C16).
+    (The Lean driver's JSON reader cannot carry such a string, so this is a probe of the real code alone.)"""
+    import glob
+    cfg = default_config(env={"required_players": 1, "save_trajectories": True})
+    sim = Sim(cfg)
+    try:
+        if sim.startup_error is not None or sim.server_cb is None:
+            return
+        sim.connect(0)
+        sim.send(0, b'{"action_type": "ActionType.JoinGame", "parameters": {"agent_info": {"name": "x\\ud800y", "role": "Attacker"}}}'.replace(b"\\\\", b"\\"))
+        first = [(c, k) for c, k, p in sim.outputs()]
+        sim.send(0, J(ActionType.ScanNetwork, source_host=IP("192.168.2.2"), target_network=Network("192.168.1.0", 24)))
+        sim.outputs()
+        sim.send(0, J(ActionType.ResetGame, request_trajectory=False))
+        outs = [(c, k, (parse_reply(p)[1] or {}).get("status") if k == "reply" else None) for c, k, p in sim.outputs()]
+        stats["probe_unencodable_name"] = stats.get("probe_unencodable_name", 0) + 1
+        died = [repr(u.get("exception"))[:120] for u in sim.loop.unhandled]
+        if (0, "reply") not in first:
+            return      # such a name is refused at the door: nothing to store
+        if (0, "reply", "GameStatus.RESET_DONE") not in outs:
+            on_fail({"C07", "C01"}, "unencodable-name:no-reset-done", f"an agent named 'x\\ud800y' asked for a reset with save_trajectories on: replies {outs}, exceptions {died}",
+                    {"kind": "config-session", "config": cfg, "script": ["join as x\\ud800y", "ScanNetwork", "ResetGame"]})
+        files = glob.glob(os.path.join(sim.workdir, "trajectories", "*.jsonl"))
+        n = 0
+        for f in files:
+            with open(f, encoding="utf-8", errors="replace") as fh:
+                n += sum(1 for line in fh if line.strip())
+        if n != 1:
+            on_fail({"C16"}, "unencodable-name:no-file-record", f"the episode of an agent named 'x\\ud800y' is not in a trajectory file after the reset ({n} records in {len(files)} files)",
+                    {"kind": "config-session", "config": cfg})
+    finally:
+        sim.close()
+
+
 def _canon_outs(outs):
     r = []
     for o in outs or []:
